@@ -2,6 +2,7 @@ package main
 
 import (
 	"fmt"
+	"sort"
 	"go/token"
 	"go/types"
 
@@ -13,12 +14,169 @@ import (
 
 func (fr *Frame) guardAccess(l *Loc, write bool, pos token.Pos)           {}
 func (fr *Frame) guardMapAccess(m ssa.Value, write bool, pos token.Pos)   {}
-func (fr *Frame) onMakeChan(i *ssa.MakeChan, ref Term)                    {}
-func (fr *Frame) onRecv(ch *Val, v *Val, pos token.Pos)                   {}
-func (fr *Frame) onSend(ch *Val, v *Val, pos token.Pos)                   {}
+
+// onMakeChan: ghost facts about a freshly made channel (e.g. its key) declared in the
+// function's contract as `makechan N assume P(ch)`; sound because the channel is fresh and
+// the ghost functions are otherwise unconstrained on it.
+func (fr *Frame) onMakeChan(i *ssa.MakeChan, ref Term) {
+	fc := fr.contr
+	if fc == nil {
+		fc = fr.vc.eng.contractOf(fr.fn)
+	}
+	if fc == nil || len(fc.MakeChans) == 0 {
+		return
+	}
+	// ordinal of this MakeChan in source order
+	var sites []*ssa.MakeChan
+	for _, b := range fr.fn.Blocks {
+		for _, in := range b.Instrs {
+			if m, ok := in.(*ssa.MakeChan); ok {
+				sites = append(sites, m)
+			}
+		}
+	}
+	sort.Slice(sites, func(a, b int) bool { return sites[a].Pos() < sites[b].Pos() })
+	ord := 0
+	for k, m := range sites {
+		if m == i {
+			ord = k + 1
+		}
+	}
+	for _, c := range fc.MakeChans[ord] {
+		env := fr.specEnvHere().bind("ch", &Val{T: ref, S: SInt, Typ: i.Type()})
+		t, err := fr.evalSpecBool(c.Expr, env)
+		if err != nil {
+			fr.vc.specError(fr, c, err)
+			continue
+		}
+		fr.vc.assume(fr.reach, t)
+		fr.vc.globalsUsed = append(fr.vc.globalsUsed, "ghost definition at make(chan) in "+relFuncName(fr.fn)+": "+c.Text)
+	}
+}
+
+func (fr *Frame) specEnvHere() *SpecEnv {
+	n := 8000 + len(fr.vc.cmds)
+	vars := map[string]*Val{}
+	for _, p := range fr.fn.Params {
+		if v, ok := fr.vals[p]; ok {
+			vars[p.Name()] = v
+		}
+	}
+	for _, p := range fr.fn.FreeVars {
+		if v, ok := fr.vals[p]; ok {
+			vars[p.Name()] = v
+		}
+	}
+	entry := fr.entry
+	if entry == nil {
+		entry = fr.st
+	}
+	return &SpecEnv{fr: fr, vars: vars, cur: fr.st, old: entry, pkg: pkgOf(fr.fn), nq: &n}
+}
+
+func chanElem(v *Val) types.Type {
+	if v == nil || v.Typ == nil {
+		return nil
+	}
+	if c, ok := v.Typ.Underlying().(*types.Chan); ok {
+		return c.Elem()
+	}
+	return nil
+}
+
+// onRecv: a received value satisfies the channel invariant when it is a genuine value:
+// ok is true (comma-ok receive), or the channel is declared never-closed (chanopen), or
+// the value is not the zero value a closed channel yields.
+func (fr *Frame) onRecvOk(ch *Val, v *Val, ok Term, pos token.Pos) {
+	if c, isDone := fr.ctxOfDoneChan(ch); isDone {
+		// a receive from ctx.Done() only completes once ctx is done
+		cd := fr.vc.heap(fr.st, ctxDoneHeap, ctxDoneSort)
+		fr.vc.setHeap(fr.st, ctxDoneHeap, ctxDoneSort, ite(fr.reach, store(cd, c, "true"), cd))
+		return
+	}
+	et := chanElem(ch)
+	if et == nil {
+		return
+	}
+	genuine := not(eq(v.T, fr.zero(et)))
+	if ok != "" {
+		genuine = ok
+	}
+	invs := fr.vc.eng.chanInvs(et)
+	for _, ci := range invs {
+		if !ci.Open {
+			continue
+		}
+		env := fr.specEnvHere().bind("ch", ch)
+		env.pkg = fr.vc.eng.spkgs[ci.PkgPath]
+		t, err := fr.evalSpecBool(ci.Clause.Expr, env)
+		if err == nil {
+			genuine = or(genuine, t)
+		}
+	}
+	for _, ci := range invs {
+		if ci.Open {
+			continue
+		}
+		env := fr.specEnvHere().bind("ch", ch).bind("v", v)
+		env.pkg = fr.vc.eng.spkgs[ci.PkgPath]
+		t, err := fr.evalSpecBool(ci.Clause.Expr, env)
+		if err != nil {
+			fr.vc.specError(fr, ci.Clause, err)
+			continue
+		}
+		fr.vc.assume(fr.reach, imp(genuine, t))
+	}
+}
+
+func (fr *Frame) onRecv(ch *Val, v *Val, pos token.Pos) { fr.onRecvOk(ch, v, "", pos) }
+
+// onClose: a channel declared never-closed must not be closed.
+func (fr *Frame) onClose(ch *Val, pos token.Pos) {
+	et := chanElem(ch)
+	if et == nil {
+		return
+	}
+	for i, ci := range fr.vc.eng.chanInvs(et) {
+		if !ci.Open {
+			continue
+		}
+		env := fr.specEnvHere().bind("ch", ch)
+		env.pkg = fr.vc.eng.spkgs[ci.PkgPath]
+		t, err := fr.evalSpecBool(ci.Clause.Expr, env)
+		if err != nil {
+			fr.vc.specError(fr, ci.Clause, err)
+			continue
+		}
+		p := fr.pos(pos)
+		fr.vc.oblige("chanopen", fmt.Sprintf("%s/chanopen#%d@close#%s", relFuncName(fr.vc.fn), i+1, hash4(fr.vc.eng.srcLine(p))), p, "never closed: "+ci.Clause.Text, fr.reach, not(t), ci.Clause.Props)
+	}
+}
+
+// onSend: a sent value must satisfy the channel invariant.
+func (fr *Frame) onSend(ch *Val, v *Val, pos token.Pos) {
+	et := chanElem(ch)
+	if et == nil {
+		return
+	}
+	for i, ci := range fr.vc.eng.chanInvs(et) {
+		if ci.Open {
+			continue
+		}
+		env := fr.specEnvHere().bind("ch", ch).bind("v", v)
+		env.pkg = fr.vc.eng.spkgs[ci.PkgPath]
+		t, err := fr.evalSpecBool(ci.Clause.Expr, env)
+		if err != nil {
+			fr.vc.specError(fr, ci.Clause, err)
+			continue
+		}
+		p := fr.pos(pos)
+		src := fr.vc.eng.srcLine(p)
+		fr.vc.oblige("chaninv", fmt.Sprintf("%s/chaninv#%d@send#%s", relFuncName(fr.vc.fn), i+1, hash4(src)), p, ci.Clause.Text, fr.reach, t, ci.Clause.Props)
+	}
+}
 func (fr *Frame) onSelectCase(i *ssa.Select, idx int, ch *Val)            {}
 func (fr *Frame) onRangeNext(r *ssa.Range, n *ssa.Next, ok, k, v *Val)    {}
-func (fr *Frame) onClose(ch *Val, pos token.Pos)                          {}
 
 // lockOwner resolves the mutex argument of a Lock/Unlock call to the object
 // that embeds (or points to) it: (object, named struct type, mutex field name).
